@@ -35,6 +35,27 @@ theorem tr_pathIsInside_spec (clean : Path → Path) (test parent : Path) :
   · have hb : (test == parent) = false := by simpa using h
     simp [hb, hslash]
 
+/-- the translated term came from the source of THIS run: if the extraction pattern is ever
+defeated the committed default is used and this obligation breaks (the tie does not fail open) -/
+theorem tr_pathIsInside_is_extracted : Gen.tr_pathIsInside_extracted = true := by decide
+
+/-- **the bridge to the headline theorems.**  The passes of the model (`killCore`, `collapse`,
+`topLevel`) use the clean-path `pathIsInside`; on paths `filepath.Clean` leaves alone — walked
+paths: the driver evaluates `cleanAbs d.path = d.path` for every entry of every replayed state
+(hypothesis flag CleanD) — the translated Go function IS that `pathIsInside`. -/
+theorem tr_pathIsInside_eq_pathIsInside (d k : Path) (hd : cleanAbs d = d) (hk : cleanAbs k = k) :
+    Gen.tr_pathIsInside cleanAbs d k = pathIsInside d k := by
+  rw [tr_pathIsInside_eq_model]
+  unfold pathIsInsideRaw pathIsInside
+  simp only [hd, hk]
+  cases h : (d == k) <;> simp
+
+/-- the hypothesis matters: an unclean spelling is inside for the Go function, not for the
+clean-path test (the auditor's witness) -/
+theorem bridge_needs_clean_paths :
+    Gen.tr_pathIsInside cleanAbs "/a/./b".toList "/a/b".toList = true ∧
+    pathIsInside "/a/./b".toList "/a/b".toList = false := by decide
+
 example : Gen.tr_pathIsInside cleanAbs "/a/b/../c/d".toList "/a/c".toList = true ∧
     Gen.tr_pathIsInside cleanAbs "/a/cd".toList "/a/c".toList = false := by decide
 
